@@ -62,7 +62,7 @@ class Interp:
     # ------------------------------------------------------------------ logging
     def event(self, kind: str, node, **kw):
         fi = self.frames[-1].fi if self.frames else None
-        rec = dict(kind=kind, node=node, fi=fi, path=list(self.path), **kw)
+        rec = dict(kind=kind, node=node, fi=fi, path=list(self.path), reach=getattr(self, "cur_reach", sym.TRUE), **kw)
         self.log.append(rec)
         return rec
 
@@ -346,6 +346,8 @@ class Interp:
 
     def exec_stmt(self, st, env: dict) -> Optional[dict]:
         fr = self.frames[-1]
+        rc = env.get("$reach")
+        self.cur_reach = rc.e if isinstance(rc, Sc) else sym.TRUE
         if isinstance(st, ast.Expr):
             self.eval(st.value, env)
             return env
@@ -443,6 +445,10 @@ class Interp:
         if d is False:
             return self.exec_block(st.orelse, env) if st.orelse else env
         e1, e2 = dict(env), dict(env)
+        rc = env.get("$reach")
+        rc = rc.e if isinstance(rc, Sc) else sym.TRUE
+        e1["$reach"] = Sc(sym.And(rc, c))
+        e2["$reach"] = Sc(sym.And(rc, sym.Not(c)))
         n = len(self.path)
         self.path.append(c)
         r1 = self.exec_block(st.body, e1)
@@ -464,6 +470,8 @@ class Interp:
             env.update(r1)
             return env
         j = self.join_envs(c, r1, r2)
+        j["$reach"] = Sc(sym.Or(r1["$reach"].e, r2["$reach"].e)) if (
+            isinstance(r1.get("$reach"), Sc) and isinstance(r2.get("$reach"), Sc)) else Sc(rc)
         env.clear()
         env.update(j)
         return env
@@ -662,6 +670,7 @@ class Interp:
                 cur[n] = _SeqAcc(v.items)
         for rounds in range(4):
             body_env = dict(cur)
+            body_env["$reach"] = Sc(sym.TRUE)
             ls = dict(continues=[], breaks=[], path_base=len(self.path))
             fr.loop_stack.append(ls)
             n0 = len(self.path)
@@ -735,6 +744,7 @@ class Interp:
                 if n in carried and n not in place and not isinstance(cur[n], _SeqAcc):
                     cur[n] = v
             del self.log[n_log:]
+        post.pop("$reach", None)
         env.update(post)
         if isinstance(st, (ast.For, ast.While)) and st.orelse:
             return self.exec_block(st.orelse, env)
